@@ -738,10 +738,14 @@ class PaneConverter(Converter[PaneBaseT]):
         ]
         self.field_map: t.Dict[str, int] = {}
 
+        # (Python names first: a name configured for one field wins over the Python name
+        # of another, whichever of the two is declared first)
+        for (i, f) in enumerate(self.fields):
+            if f.init:
+                self.field_map[f.name] = i
         for (i, f) in enumerate(self.fields):
             if not f.init:
                 continue
-            self.field_map[f.name] = i
             for alias in f.in_names:
                 self.field_map[alias] = i
 
